@@ -21,7 +21,10 @@ RULE = ("structural heads (prefix|none) x opcode x second byte (complete in thor
         ">= 1 operand byte; distinct = (pre, opcode, b2, tail pattern). Plus streamed decodes (every instruction yielded by "
         "fusion(iter_decode) re-encodes to the bytes consumed, length() == encoded length; non-trivial = an instruction "
         "following a prefixed one) and harness-scheduled pre-emption (round trip / guard verdict unchanged when another "
-        "decode runs at a generated line of the first).")
+        "decode runs at a generated line of the first); whole-operand landmark values (vectors, window bases, the "
+        "instruction's own and fall-through address) for every opcode; iter_encode of a streamed sequence into one "
+        "encoder; the round trip right after a rejected operation (failing encode of a patched instruction, decode of "
+        "invalid/truncated bytes; non-trivial = the operation was in fact rejected).")
 
 PATTERN = (0x00, 0x0F, 0x10, 0x7F, 0x80, 0xF0, 0xFF)
 ADDRS = (0x0, 0x0FFFE, 0x1FFFD, 0xFFFFB, 0x1000)
@@ -165,6 +168,22 @@ def _shard(task: Tuple[int, int, int, str]) -> Report:
     return rep
 
 
+def _landmark_shard(task: Tuple[int, int, int, str]) -> Report:
+    """Whole-operand landmark values (gen_enc.landmark_buffers) through the round-trip checks."""
+    shard, nshards, seed, tier = task
+    rep = Report()
+    for op in range(256):
+        if op % nshards != shard or G.is_pre(op):
+            continue
+        pres = ([None] + [G.PRE_OPCODES[mix32(seed, op, j) % len(G.PRE_OPCODES)] for j in range(3)]) if tier == "quick" else list(G.PRES)
+        for pre in pres:
+            h = mix32(seed, op, 0 if pre is None else pre, 0x1A)
+            addr = ADDRS[h % len(ADDRS)] if (h >> 4) % 3 else (h >> 8) & 0xFFFFF
+            for tag, data in G.landmark_buffers(pre, op, addr, seed):
+                check_one(data, addr, rep, "landmark")
+    return rep
+
+
 def _sched_task(t: Tuple[str, str, int, int]) -> Report:
     """stream / preempt sub-checks shared with C01 (c01_sched.py), with C02's oracles."""
     from . import c01_sched as S
@@ -183,6 +202,23 @@ def _sched_task(t: Tuple[str, str, int, int]) -> Report:
                 rep.violate(v)
             rep.case(f"stream:{buf.hex()}:{addr}" if after_pre >= 1 else None, ["kind:stream"],
                      {"stream": buf.hex(), "addr": f"{addr:#x}", "instructions": n_ins} if i % 400 == 1 else None)
+        elif kind == "after-reject":
+            # a rejected operation (failing encode of a patched instruction, decode of invalid / truncated bytes) must
+            # leave no trace: the round trip of the next valid instruction gives every verdict it gives alone
+            h = mix32(cs, 1)
+            fk = S.FAIL_KINDS[h % len(S.FAIL_KINDS)]
+            victim = pool[(h >> 4) % len(pool)]
+            valid = pool[(h >> 16) % len(pool)]
+            addr = ADDRS[(h >> 28) % len(ADDRS)]
+            rejected = S.rejected_operation(fk, victim, addr, cs)
+            tmp = Report()
+            check_one(valid + bytes(5), addr, tmp, "after-reject:" + fk if rejected else "after-accepted-op")
+            for v in tmp.violations:
+                rep.violate(Violation(v.subcheck, v.where + f" [right after a rejected operation: {fk}]", v.symptom,
+                                      {"kind": "after-reject", "fail_kind": fk, "victim": victim.hex(),
+                                       "data": (valid + bytes(5)).hex(), "addr": addr, "seed": cs}, v.detail))
+            rep.case(f"after-reject:{fk}:{victim.hex()}:{valid.hex()}" if rejected else None, ["kind:after-reject", "op-rejected" if rejected else "op-not-rejected"],
+                     {"fail_kind": fk, "victim": victim.hex(), "then": valid.hex()} if i % 500 == 1 else None)
         else:
             h = mix32(cs, 1)
             a = [("text", "rt", "il")[h % 3], (pool[(h >> 4) % len(pool)] + bytes(4)).hex(), ADDRS[(h >> 20) % len(ADDRS)]]
@@ -201,9 +237,10 @@ def _sched_task(t: Tuple[str, str, int, int]) -> Report:
 def run(ctx: Ctx) -> Report:
     nshards = 64
     reports = ctx.pmap(_shard, [(i, nshards, ctx.seed, ctx.tier) for i in range(nshards)])
+    reports += ctx.pmap(_landmark_shard, [(i, 32, ctx.seed, ctx.tier) for i in range(32)])
     n_st, n_pe = ctx.pick(3200, 32000), ctx.pick(1600, 12000)
     reports += ctx.pmap(_sched_task, [(PROPERTY, k, ctx.shard_seed(400 + 10 * j + i), n // 8)
-                                      for j, (k, n) in enumerate((("stream", n_st), ("preempt", n_pe))) for i in range(8)])
+                                      for j, (k, n) in enumerate((("stream", n_st), ("preempt", n_pe), ("after-reject", ctx.pick(4000, 40000)))) for i in range(8)])
     rep = ctx.merge_reports(reports)
     rep.rule = RULE
     rep.exhaustive = ctx.tier == "thorough"
@@ -216,6 +253,14 @@ def run(ctx: Ctx) -> Report:
 
 
 def replay(ctx: Ctx, case: Dict[str, Any]) -> List[Violation]:
+    if case.get("kind") == "after-reject":
+        from . import c01_sched as S
+
+        rep = Report()
+        S.rejected_operation(case["fail_kind"], bytes.fromhex(case["victim"]), int(case["addr"]), int(case["seed"]))
+        check_one(bytes.fromhex(case["data"]), int(case["addr"]), rep, "replay")
+        return [Violation(v.subcheck, v.where + f" [right after a rejected operation: {case['fail_kind']}]", v.symptom, case, v.detail)
+                for v in rep.violations]
     if case.get("kind") in ("stream", "preempt"):
         from . import c01_sched as S
 
